@@ -69,6 +69,7 @@ type Map struct {
 	sym     []int          // indices of entries with symbolic keys
 	n       int
 	anyOrder bool
+	flip     bool // each range statement iterates forward or backward (schedule variable)
 }
 
 func keyEnc(k Value) (string, bool) {
